@@ -360,7 +360,7 @@ def full_cfg(cfg):
 
 def check(run):
     thorough = run.tier == "thorough"
-    n_objects = 1500 if thorough else 90
+    n_objects = 1400 if thorough else 60
     run.coverage["rule"] = (
         "generated SDO/SRO/marking-definition objects (2.0 and 2.1; built by class constructor, by parse, or kept as plain "
         "dicts) with falsy values, repeated list elements, embedded objects, nested custom content and prefix-related "
